@@ -323,8 +323,8 @@ def trim_long_fields(
 
   def traverse(value, state: daglish.State):
     if isinstance(value, config_lib.Buildable):
-      for argument in set(config_lib.ordered_arguments(value)):
-        field = getattr(value, argument)
+      should_copy = True
+      for argument, field in config_lib.ordered_arguments(value).items():
         if not isinstance(field, (config_lib.Buildable, list, tuple, dict)):
           field_repr = repr(field)
           if len(field_repr) > threshold:
@@ -332,7 +332,14 @@ def trim_long_fields(
                 repr(field), width=threshold, placeholder='...'
             )
             prefix = _TruncatedRepr(s)
-            setattr(value, argument, prefix)
+            if should_copy:
+              # Never modify the configuration that was passed in.
+              value = copy.copy(value)
+              should_copy = False
+            if isinstance(argument, int):
+              value[argument] = prefix
+            else:
+              setattr(value, argument, prefix)
     return state.map_children(value)
 
   return daglish.MemoizedTraversal.run(traverse, config)
